@@ -246,7 +246,7 @@ def run(ck, ctx):
         n = 0
         for root, nm in ((sample, "energy_spectra"), (norm, "spec_norm"), (wsum, "sum_spec_weights")):
             for d in walk([root]):
-                if d.fn is None or d.fn.qualname not in HELPERS:
+                if d.fn is None or not d.fn.module.name.endswith(".spectra"):
                     continue
                 div = None
                 if d.op == "BinOp" and d.attr in ("Div", "FloorDiv", "Mod"):
